@@ -2768,13 +2768,24 @@ class Cond(Generic[X, R], GFI[X, R]):
         (check, *rest_args) = args
         new_tr, w, discard = self.callee.update(tr.trs[0], x, *rest_args, **kwargs)
         new_tr_, w_, discard_ = self.callee_.update(tr.trs[1], x, *rest_args, **kwargs)
-        # Merge discarded values
-        merged_discard, _ = self.callee.merge(discard, discard_)
+        # The discard holds what was visible before the update: the values of
+        # the branch selected by the *old* condition.
+        merged_discard, _ = self.callee.merge(discard, discard_, tr.check)
         return (
             CondTr(self, check, [new_tr, new_tr_]),
-            jnp.where(check, w, w_),
+            jnp.where(check, w, w_) + self._branch_switch_weight(tr, check),
             merged_discard,
         )
+
+    def _branch_switch_weight(self, tr: CondTr[X, R], check) -> Weight:
+        """Density ratio contributed by a change of the visible branch.
+
+        Each branch's own weight compares that branch with itself.  When the
+        condition changes, the previously visible score belongs to the other
+        branch; exchange the two old scores accordingly (zero otherwise).
+        """
+        old_scores = [get_score(t) for t in tr.trs]
+        return jnp.where(tr.check, *old_scores) - jnp.where(check, *old_scores)
 
     def regenerate(
         self,
